@@ -103,7 +103,9 @@ def gen_case(rng):
             elif ck < 0.6 and len(src.shape) == 2:
                 p = b.apply("einsum", [src, ("array", (src.shape[1], 2), b.rng_vals((src.shape[1], 2), -2, 2))], {"spec": "ij,jk->ik"})
             if p is None:
-                p = b.apply("multiply", [src, w] if rng.random() < 0.5 else [w, src])
+                # (sometimes a stop-gradient consumer: the view is in the graph that backward() clears, but behind a constant edge)
+                detached = rng.random() < 0.2 and len(parts) > 0
+                p = b.apply("multiply", [src, w] if rng.random() < 0.5 else [w, src], const=True if detached else None)
             if p is None:
                 continue
             if rng.random() < 0.3:
